@@ -33,6 +33,12 @@ pub struct Swarm {
     /// bytes (two-byte length prefixes).
     pub big_ids: bool,
     pub long_names: bool,
+    /// One dimension with 8-10 attributes (other dimensions stay small).
+    pub tall: bool,
+    /// Policy nesting depth for generated policies.
+    pub pol_depth: u32,
+    /// Several rekeys of the same policy in a row (long chains).
+    pub bursts: bool,
 }
 
 #[derive(Clone, Copy, Debug, PartialEq, Eq)]
@@ -204,10 +210,11 @@ impl Swarm {
         };
         let hybrid_pct = *rng.pick(&[0, 0, 30, 60, 100]);
         Swarm {
-            n_users: rng.range(1, 5),
+            n_users: if rng.pct(5) { rng.range(8, 12) } else { rng.range(1, 5) },
             n_encryptors: rng.range(1, 3),
             n_events: if thorough { rng.range(15, 110) } else { rng.range(10, 70) },
-            n_dims: *rng.pick(&[1, 2, 2, 2, 3, 3]),
+            // a few "wide" runs: 4-5 dimensions of at most 2 attributes
+            n_dims: *rng.pick(&[1, 2, 2, 2, 3, 3, 2, 3, 2, 3, 2, 3, 2, 3, 2, 3, 2, 3, 4, 5]),
             max_attrs: rng.range(1, 4),
             hybrid_pct: if prop == "C11" { *rng.pick(&[20, 40, 60, 100, 0]) } else { hybrid_pct },
             hierarchy_pct: *rng.pick(&[0, 50, 50, 100]),
@@ -225,6 +232,9 @@ impl Swarm {
             kinds,
             big_ids: rng.pct(6),
             long_names: rng.pct(6),
+            tall: rng.pct(5),
+            pol_depth: *rng.pick(&[2, 2, 2, 2, 3, 3, 4]),
+            bursts: rng.pct(8),
         }
     }
 }
@@ -320,6 +330,8 @@ pub struct Gen {
     pub sw: Swarm,
     pub name_ctr: u32,
     pub thorough: bool,
+    /// Events queued by a burst (returned before anything new is drawn).
+    pub pending: Vec<Ev>,
 }
 
 impl Gen {
@@ -329,6 +341,7 @@ impl Gen {
             sw,
             name_ctr: 0,
             thorough: false,
+            pending: vec![],
         }
     }
 
@@ -367,7 +380,14 @@ impl Gen {
                 }
             }
             let mut d = MDim { name: dname.clone(), hierarchy, attrs: vec![] };
-            let n_attrs = if rng.pct(5) { 0 } else { rng.range(1, self.sw.max_attrs) };
+            let cap = if self.sw.n_dims >= 4 { self.sw.max_attrs.min(2) } else { self.sw.max_attrs };
+            let n_attrs = if di == 0 && self.sw.tall && self.sw.n_dims <= 2 {
+                rng.range(8, 10)
+            } else if rng.pct(5) {
+                0
+            } else {
+                rng.range(1, cap)
+            };
             for _ in 0..n_attrs {
                 let an = self.fresh_attr_name(rng, &d);
                 let hybrid = rng.pct(self.sw.hybrid_pct);
@@ -448,7 +468,7 @@ impl Gen {
         if rng.pct(self.sw.invalid_pct) {
             { let p = invalid_pol(rng, s, false); return arg(rng, p); }
         }
-        let p = gen_pol(rng, s, 2);
+        let p = gen_pol(rng, s, self.sw.pol_depth);
         arg(rng, p)
     }
 
@@ -546,6 +566,9 @@ impl Gen {
 
     /// Draws the next event. Always returns something applicable (falls back to Deliver).
     pub fn step(&mut self, rng: &mut Rng, w: &World) -> Ev {
+        if let Some(ev) = self.pending.pop() {
+            return ev;
+        }
         for _ in 0..8 {
             let op = rng.weighted(&self.sw.w);
             if let Some(ev) = self.try_op(op, rng, w) {
@@ -605,7 +628,16 @@ impl Gen {
                 let op = self.usk_op(rng, w, user);
                 Ev::RequestRefresh { user, keep: rng.pct(50), delay: 0, dup: false, tamper: Some(op) }
             }
-            x if x == Op::Rekey as usize => Ev::Rekey { pol: self.rotation_pol(rng, w) },
+            x if x == Op::Rekey as usize => {
+                let ev = Ev::Rekey { pol: self.rotation_pol(rng, w) };
+                if self.sw.bursts && rng.pct(30) {
+                    // the same policy re-keyed several times in a row: long chains
+                    for _ in 0..rng.range(3, 9) {
+                        self.pending.push(ev.clone());
+                    }
+                }
+                ev
+            }
             x if x == Op::Prune as usize => Ev::Prune { pol: self.rotation_pol(rng, w) },
             x if x == Op::AddAttr as usize => {
                 if inv {
